@@ -1,4 +1,5 @@
 import PGV.Proofs.Dump
+import PGV.Proofs.JsonRT
 
 /-!
 # C20 — the struct dumper emits the JSON text of the value's document
@@ -8,6 +9,10 @@ depth), pointers to structs (any level, nil), slices and arrays (nil, empty, any
 string / integer / bool keys (nil, empty, any number of entries), strings, integers, unsigned
 integers, floats, bools — the dumper writes exactly `print (doc v)`: the compact JSON text of the
 document `encoding/json` produces with field names as keys, up to the documented deviations.
+And that text is well-formed: an independent reader of compact JSON (`Spec/JsonParse.lean`: RFC 8259
+numbers, strings without escapes, arrays, objects) reads it back as exactly that document
+(`C20_output_parses`, from the round trip `parse (print j) = some j` proved for every well-formed
+document by mutual structural induction).
 -/
 
 namespace PGV.Props.C20
@@ -34,6 +39,25 @@ theorem C20_elements (es : GoVals) (h : inScopeElems es = true) (st : DSt) :
 theorem C20_entries (es : Entries) (h : inScopeEntries es = true) (st : DSt) :
     (dumpEntries es st).buf = st.buf ++ printMembers (docEntries es) := dumpEntries_buf es h st
 
+/-- **well-formedness by round trip**: when the strings of the document need no escapes and its
+number texts are JSON numbers (`JVal.wf`: the property's "strings without characters needing escapes",
+"moderate floats"), the dumper's output is read back by the JSON reader as the document itself -/
+theorem C20_output_parses (v : GoVal) (h : ptrTarget v = true) (hw : (doc v).wf = true) :
+    parse (getDumpStructStr v).buf = some (doc v) := by
+  rw [C20_dump_is_print v h]
+  exact PGV.Proofs.JsonRT.parse_print (doc v) hw
+
+/-- the round trip itself, for every well-formed document -/
+theorem C20_parse_print (j : JVal) (hw : j.wf = true) : parse (print j) = some j :=
+  PGV.Proofs.JsonRT.parse_print j hw
+
+/-- integers of every width and sign are rendered as JSON numbers (no leading zeros, `-` only in front) -/
+theorem C20_integers_wellformed (bits : Nat) (z : Int) (n : Nat) :
+    (doc (.int bits z)).wf = true ∧ (doc (.uint bits n)).wf = true := by
+  have h1 := PGV.Proofs.JsonRT.int_json z
+  have h2 := PGV.Proofs.JsonRT.nat_json n
+  simp [doc, JVal.wf, h1.1, h1.2, h2.1, h2.2]
+
 /-! non-vacuity: empty struct field, unexported first field, nil pointer, nil slice, string-keyed map, bool -/
 example :
     let v : GoVal := .struct (b! "T") (b! "T") false
@@ -43,7 +67,12 @@ example :
       (.cons (b! "S") true false [] (.slice (b! "[]int") (b! "int") true .nil)
       (.cons (b! "M") true false [] (.map (b! "map[string]int") true false (.cons (.str (b! "a")) (.int 0 1) (.cons (.str (b! "b")) (.int 0 2) .nil)))
       (.cons (b! "B") true false [] (.bool true) .nil))))))
-    ptrTarget v = true ∧ (getDumpStructStr v).buf = b! "{\"E\":{},\"P\":null,\"S\":[],\"M\":{\"a\":1,\"b\":2},\"B\":\"true\"}" := by
+    ptrTarget v = true ∧ (getDumpStructStr v).buf = b! "{\"E\":{},\"P\":null,\"S\":[],\"M\":{\"a\":1,\"b\":2},\"B\":\"true\"}"
+      ∧ (doc v).wf = true ∧ (parse (getDumpStructStr v).buf).map print = some (print (doc v)) := by
   decide
+
+/-- the reader rejects what is not JSON: a trailing comma, a missing comma, a leading zero, a control character -/
+example : (parse (b! "[1,]")).isNone ∧ (parse (b! "{\"a\":1\"b\":2}")).isNone ∧ (parse (b! "[01]")).isNone
+    ∧ (parse ([34, 9, 34])).isNone ∧ (parse (b! "{\"a\":}")).isNone ∧ (parse (b! "[1,2]x")).isNone := by decide
 
 end PGV.Props.C20
